@@ -31,13 +31,13 @@ def levels(tier):
              "every_step": True},
         ]
     return [
-        {"name": "n2-wide", "shapes": [[1, 2, 3]], "n": 2, "alphabet": edits + ["rmforeign", "delbad", "deldup"], "we_two_prefixes": True},
+        {"name": "n2-wide", "shapes": [[1, 2, 3]], "n": 2, "alphabet": edits + ["rmforeign", "delbad", "deldup"]},
         {"name": "refused-wide", "shapes": [[1, 2, 3]], "n": 2, "prelude": [["we", [[1, 1], [2, 2]]]],
          "alphabet": ["we", "addprefix", "delbad", "deldup", "rmforeign", "delwe"]},
         {"name": "refused-n3", "shapes": [[1, 2, 2]], "n": 3, "prelude": [["we", [[1, 1], [2, 2]]]], "alphabet": ["delbad", "deldup", "addprefix"]},
         {"name": "n3-wide", "shapes": [[1, 2, 3]], "n": 3, "alphabet": ["we", "delwe", "addprefix", "rmprefix", "moveprefix"]},
         {"name": "variants-n3", "shapes": [[1, 2, 2]], "n": 3, "alphabet": ["we", "delwe", "rmprefix", "moveprefix"], "api_variants": True},
-        {"name": "n4", "shapes": [[1, 2, 2]], "n": 4, "alphabet": ["we", "delwe", "addprefix"]},
+        {"name": "n4", "shapes": [[1, 2, 2]], "n": 4, "alphabet": ["we", "addprefix"]},
         {"name": "auto-n3", "typed": TPOOL, "default": "domain", "anchored": (1, 3, "path1"), "n": 3, "alphabet": ["we", "page"], "every_step": True},
     ]
 
